@@ -1156,3 +1156,74 @@ def foreign_program(rng, pid, vol, cs, oem, n_ops=12):
     ops.append({"op": "stats"})
     ops.append({"op": "unmount"})
     return {"id": pid, "cfg": cfg, "ops": ops, "origin": "foreign"}
+
+
+def large_volume(kind, hint, rng):
+    """sparse builder volumes from 4 GiB to 2 TiB and up to the FAT32 cluster limit (C20)"""
+    if kind == "4g":
+        bps, spc = 512, 8
+        n = (1 << 20) + 2000
+    elif kind == "1t":
+        bps, spc = 512, 64
+        n = (1 << 25) + 4000
+    elif kind == "2t":
+        bps, spc = 512, 64
+        n = ((1 << 32) - 1 - 32 - 2 * (((1 << 26) * 4 + 511) // 512)) // 64 - 8
+    elif kind == "limit4k":
+        bps, spc = 4096, 1
+        n = 0x0FFFFFF5
+    else:
+        raise KeyError(kind)
+    cs = bps * spc
+    vol = {"kind": "builder", "ft": 32, "bps": bps, "spc": spc, "n": n, "nfats": rng.choice([1, 2]), "rsvd": 32, "cell": cs // 2,
+           "tree": [{"kind": "f", "name": "first.bin", "sfn": "FIRST   BIN", "size": cs + cs // 2, "pat": 3},
+                    {"kind": "d", "name": "dir", "sfn": "DIR        ", "children": []}]}
+    last = n + 1
+    first_data_bytes = (32 + vol["nfats"] * (((n + 2) * 4 + bps - 1) // bps)) * bps
+    marks = {"last": last, "before_last": last - 1, "past": last + 1, "unknown": "unknown",
+             "4g": (4 << 30) // cs + 2 - first_data_bytes // cs, "2g": (2 << 30) // cs + 2, "1t": (1 << 40) // cs + 2 - first_data_bytes // cs}
+    h = marks[hint]
+    if isinstance(h, int) and (h < 2 or h > last + 1):
+        h = last - 3
+    vol["fsinfo"] = {"free": "exact", "next": h}
+    bad = []
+    if hint in ("last", "before_last"):
+        # make the scan from the hint run into the end quickly and wrap: a few BAD clusters at the start too
+        bad.append([5, 6])
+    vol["bad"] = bad
+    return vol, cs
+
+
+def large_program(rng, pid, kind, hint):
+    vol, cs = large_volume(kind, hint, rng)
+    cfg = {"vol": vol, "cell": cs // 2}
+    ops = [{"op": "stats"},
+           {"op": "create_file", "at": "", "path": "big one.dat", "as": "a"},
+           {"op": "write_all", "h": "a", "pat": 7, "len": 3 * cs},
+           {"op": "flush", "h": "a"},
+           {"op": "extents", "h": "a"},
+           {"op": "seek", "h": "a", "from": "start", "off": cs // 2},
+           {"op": "read_all", "h": "a", "len": 2 * cs},
+           {"op": "create_file", "at": "", "path": "dir/second.dat", "as": "b"},
+           {"op": "write_all", "h": "b", "pat": 8, "len": cs + cs // 2},
+           {"op": "close", "h": "b"},
+           {"op": "seek", "h": "a", "from": "start", "off": cs},
+           {"op": "truncate", "h": "a"},
+           {"op": "write_all", "h": "a", "pat": 9, "len": 2 * cs},
+           {"op": "close", "h": "a"},
+           {"op": "stats"},
+           {"op": "open_file", "at": "", "path": "FIRST.BIN", "as": "f"},
+           {"op": "read_all", "h": "f", "len": 2 * cs},
+           {"op": "seek", "h": "f", "from": "end", "off": 0},
+           {"op": "write_all", "h": "f", "pat": 4, "len": cs},
+           {"op": "extents", "h": "f"},
+           {"op": "close", "h": "f"},
+           {"op": "remove", "at": "", "path": "big one.dat"},
+           {"op": "stats"},
+           {"op": "unmount"},
+           {"op": "stats"},
+           {"op": "open_file", "at": "", "path": "dir/second.dat", "as": "c"},
+           {"op": "read_all", "h": "c", "len": 2 * cs},
+           {"op": "close", "h": "c"},
+           {"op": "unmount"}]
+    return {"id": pid, "cfg": cfg, "ops": ops, "origin": "large:%s:%s" % (kind, hint)}
